@@ -31,6 +31,9 @@ typedef DataNS::AnalogsNS::Analogs Analogs;
 typedef DataNS::AnalogsNS::SubFrame SubFrame;
 typedef DataNS::AnalogsNS::Channel Channel;
 
+#ifdef EZ_COV
+extern "C" void __gcov_dump(void);
+#endif
 static std::string g_own, g_shared;
 static thread_local FILE* g_out = stdout;   // per thread in --threads mode
 
@@ -287,6 +290,24 @@ static void runCase(const std::vector<std::string>& lines) {
         else if (cmd == "D.mutpt") { int k = (int)tk.i64(); size_t f = tk.u64(); size_t i = tk.u64(); float v = tk.flt(); GUARD(O(k).data().frame(f).points_nonConst().point_nonConst(i).x(v); fprintf(g_out, "ok\n")); }
         else if (cmd == "D.mutch") { int k = (int)tk.i64(); size_t f = tk.u64(); size_t s = tk.u64(); size_t i = tk.u64(); float v = tk.flt(); GUARD(O(k).data().frame(f).analogs_nonConst().subframe_nonConst(s).channel_nonConst(i).data(v); fprintf(g_out, "ok\n")); }
         // ---- look-ups (C11) ----
+        else if (cmd == "D.mutptn") { int k = (int)tk.i64(); size_t f = tk.u64(); std::string n = tk.str(); float v = tk.flt(); GUARD(O(k).data().frame(f).points_nonConst().point_nonConst(n).x(v); fprintf(g_out, "ok\n")); }
+        else if (cmd == "D.mutchn") { int k = (int)tk.i64(); size_t f = tk.u64(); size_t s = tk.u64(); std::string n = tk.str(); float v = tk.flt(); GUARD(O(k).data().frame(f).analogs_nonConst().subframe_nonConst(s).channel_nonConst(n).data(v); fprintf(g_out, "ok\n")); }
+        // the containers as vectors (frames(), groups(), parameters(), points(), subframes(), channels()) and a point as its four floats
+        else if (cmd == "get.vec") { int k = (int)tk.i64();
+            GUARD(const auto& fr = O(k).data().frames(); const auto& gs = O(k).parameters().groups();
+                  std::string out = "ok " + u(fr.size()) + " " + u(gs.size());
+                  for (const auto& g : gs) out += " " + u(g.parameters().size());
+                  out += " |";
+                  size_t nf = 0;
+                  for (const auto& f : fr) { if (nf++ >= 3) break;
+                      out += " " + u(f.points().points().size()) + ":" + u(f.analogs().subframes().size());
+                      for (const auto& sf : f.analogs().subframes()) out += "," + u(sf.channels().size());
+                      size_t np = 0;
+                      for (const auto& p : f.points().points()) { if (np++ >= 2) break;
+                          std::vector<float> d = p.data(); ezc3d::DataNS::Points3dNS::Point q(p); std::vector<float> e = q.data_nonConst();
+                          for (float x : d) out += " " + hexf(x);
+                          out += (d == e || (d.size() == e.size() && memcmp(d.data(), e.data(), d.size() * sizeof(float)) == 0)) ? " =" : " !"; } }
+                  fprintf(g_out, "%s\n", out.c_str())); }
         else if (cmd == "get.frame") { int k = (int)tk.i64(); size_t i = tk.u64(); GUARD(const Frame& f = O(k).data().frame(i); fprintf(g_out, "ok %s %s\n", u(f.points().nbPoints()).c_str(), u(f.analogs().nbSubframes()).c_str())); }
         else if (cmd == "get.point") { int k = (int)tk.i64(); size_t f = tk.u64(); size_t i = tk.u64(); GUARD(fprintf(g_out, "ok %s\n", pointBody(O(k).data().frame(f).points().point(i)).c_str())); }
         else if (cmd == "get.pointn") { int k = (int)tk.i64(); size_t f = tk.u64(); std::string n = tk.str(); GUARD(size_t i = O(k).data().frame(f).points().pointIdx(n); fprintf(g_out, "ok %s %s\n", u(i).c_str(), pointBody(O(k).data().frame(f).points().point(n)).c_str())); }
@@ -450,6 +471,9 @@ int main(int argc, char** argv) {
                 alarm(tmo);
                 runCase(lines);
                 fflush(stdout);
+#ifdef EZ_COV
+                __gcov_dump();      // bin/tie-coverage: the child leaves through _exit, which would drop its counters
+#endif
                 _exit(0);
             }
             int st = 0; waitpid(pid, &st, 0);
